@@ -79,6 +79,34 @@ class CallMixin(object):
             return res
         raise OutsideSubset("call form")
 
+    def call_super(self, mname, e, st):
+        """super(...).m(...): resolved through the class statements of the module (first base that has a contract)."""
+        cls = self.pyclass
+        seen = set()
+        work = [cls]
+        target = None
+        while work and target is None:
+            cname = work.pop(0)
+            if cname in seen:
+                continue
+            seen.add(cname)
+            cdef = [c for c in self.module.classes() if c.name == cname]
+            if not cdef:
+                continue
+            for b in cdef[0].bases:
+                bname = b.id if isinstance(b, ast.Name) else (b.attr if isinstance(b, ast.Attribute) else None)
+                if bname is None:
+                    continue
+                cands = [c for (m, q), c in self.reg.contracts.items() if q == "%s.%s" % (bname, mname)]
+                if cands:
+                    target = cands[0]
+                    break
+                work.append(bname)
+        if target is None:
+            raise OutsideSubset("super().%s: no contracted base method found" % mname)
+        recv = self.lookup("self", st)
+        return self.call_with_args(target, recv, e, st)
+
     def call_starred(self, e, st):
         """f(*args) where f is an opaque callable field declared in reg.callables (component bodies)."""
         f = e.func
@@ -88,6 +116,7 @@ class CallMixin(object):
             for st1, obj in self.ev(f.value, st):
                 if isinstance(obj.ty, Ref) and (obj.ty.cls, f.attr) in callables:
                     c = callables[(obj.ty.cls, f.attr)]
+                    c = c[0] if isinstance(c, list) else c
                     fld = self.heap_get(st1, obj, f.attr)
                     for st2, seq in self.ev_iter(e.args[0].value, st1):
                         res.extend(self.call_contract(c, [fld, seq], {}, st2, None))
@@ -237,6 +266,7 @@ class CallMixin(object):
                 self.heap_arr(st, cls, f)
                 ty = self.field_ty(cls, f)
                 st.heap[m] = z3.Const(CTX.fresh("H_" + m), z3.ArraySort(CTX.sort(Ref(cls)), CTX.sort(ty)))
+                self.heap_wf(st.heap[m], cls, ty, st.pc)
                 st.wrote("h", m)
             elif m in st.glob:
                 nv = fresh(st.glob[m].ty, m)
@@ -363,6 +393,17 @@ class CallMixin(object):
         if isinstance(ty, Ref):
             c = self.reg.methods.get((ty.cls, name))
             if c is None:
+                cands = getattr(self.reg, "callables", {}).get((ty.cls, name))
+                if cands is not None:
+                    # opaque callable stored in a field (component body): pick the convention whose parameters fit
+                    fld = self.heap_get(st, recv, name)
+                    for cc in (cands if isinstance(cands, list) else [cands]):
+                        try:
+                            self.bind_params(cc, [fld] + args, kw, st.copy())
+                        except OutsideSubset:
+                            continue
+                        return self.call_contract(cc, [fld] + args, kw, st, None)
+                    raise OutsideSubset("no calling convention of %s.%s fits %r" % (ty.cls, name, [a.ty for a in args]))
                 raise OutsideSubset("no contract for method %s.%s" % (ty.cls, name))
             return self.call_contract(c, [recv] + args, kw, st, node)
         if isinstance(ty, Opt):
@@ -838,6 +879,11 @@ class CallMixin(object):
             if b is None:
                 raise OutsideSubset("iteration over None on every path")
             return self.as_sequence(core.oval(v), b)
+        if isinstance(ty, U):
+            view = getattr(self.reg, "iter_views", {}).get(ty.name)
+            if view is not None:
+                fn, rty = view
+                return (st, core.ufun("sf_" + fn, [v], rty))
         raise OutsideSubset("iteration over %r" % (ty,))
 
     def enumerate_set(self, s, st, fn=None):
